@@ -754,6 +754,8 @@ def _life(rep, tier, prop, fams, needed):
             note = r.get("note", {})
             if note.get("read_differs") or note.get("read_failed"):
                 rep.mismatch({"kind": "wire_trip_changed_block", "family": fam}, mk)
+            if note.get("signature_count"):
+                rep.mismatch({"kind": "constructor_signature_count", "family": fam}, mk)
             if note.get("bytes_differ") is False:
                 rep.mismatch({"kind": "edit_leaves_bytes_equal", "family": fam}, mk)
     rep.cov["evaluations"] = n
